@@ -208,6 +208,7 @@ func runWLCell(em *Emitter, id int, sc Scenario, seed int64) {
 	}
 	before := wlPublic(r)
 	e := NewEnum(seed)
+	e.MaxProd = 1 << 26
 	randomPolicy := func(j int, n uint32) uint32 { return uint32(e.Rng.Int63n(int64(n))) }
 	entropyOnce := func() Dyadic {
 		d := Dyadic{K: "panic"}
@@ -233,6 +234,9 @@ func runWLCell(em *Emitter, id int, sc Scenario, seed int64) {
 		if out.Panic != nil {
 			res = ResOf(nil, nil, out.Panic)
 		}
+		if out.Cut {
+			res = GenRes{Kind: "cut", Toks: []TokJ{}, Str: []int{}, Ent: DyadicOf(0)}
+		}
 		ev := LeafEv{Op: "wleaf", D: [][2]int{}, Reads: out.Tape.Reads, Words: len(out.Tape.Words), Left: out.Tape.Leftover(),
 			Unann: out.Unannounced, Det: -1, Res: res, PathW: []int{}}
 		prod := big.NewInt(1)
@@ -255,6 +259,9 @@ func runWLCell(em *Emitter, id int, sc Scenario, seed int64) {
 		if out2.Panic != nil {
 			res2 = ResOf(nil, nil, out2.Panic)
 		}
+		if out.Cut {
+			res2 = res
+		}
 		if reflect.DeepEqual(res, res2) {
 			ev.Det = 1
 		} else {
@@ -267,6 +274,7 @@ func runWLCell(em *Emitter, id int, sc Scenario, seed int64) {
 		maxLeaves = 20000
 	}
 	if sc.Mode == "paths" {
+		e.MaxProd, e.MaxDraws = 0, 400000
 		for k := 0; k < sc.Paths; k++ {
 			var res GenRes
 			kind := k
